@@ -19,6 +19,11 @@ CLAIMS = {
    note="Side effects are observed via sys.addaudithook; lenient acceptance of malformed input is allowed; memory-bomb length fields are a listed known finding (run under RLIMIT_AS).",
    technique="TLA+ decoder machine model-checked with TLC over bounded soups; TLC-enumerated tokens + mutations replayed into real loader; outcomes validated by TLC",
    ref="5/C13"),
+ "C09": dict(
+   text="spec/WorkerPool.tla models spawn / _try_send_to_primary_thread / integrate_as_primary_thread / trigger_shutdown / _perform_spawn / waitall at critical-section granularity; TLC checks at-most-once, waitall truthfulness and, under weak fairness, that every accepted task runs, every waitall returns and the primary leaves after shutdown, for thread / main_thread_only / no-primary pools, and kills the un-fixed design (Fix_KeepPendingTask=FALSE). The real WorkerPool runs under a deterministic baton scheduler (DFS, random, PCT, post-yield and TLC-behaviour-hinted schedules); every distinct observable trace is judged by TLC with the property automaton spec/PoolAbs.tla.",
+   note="Trusted: simulated Lock/Event/Queue semantics, timed waits expire only at quiescence, preemption at synchronisation operations only. Bounded thread/task counts.",
+   technique="TLA+ model of WorkerPool model-checked with TLC (safety+liveness, mutant); real pool under deterministic schedule exploration incl. TLC-generated schedules; traces validated by TLC against property automaton",
+   ref="5/C09"),
 }
 
 NOT_YET = {}
